@@ -496,7 +496,7 @@ theorem le_flag_sites :
       [("Session.input", "s.clientUseLowEntropy.Store(true)", "!s.isClient && protocol == dataClientToServerLowEntropy")] ∧
     Mieru.Gen.PatternGen.clientUseLowEntropyLoads = [("Session.lowEntropySendConfig", "s.clientUseLowEntropy.Load()", "")] ∧
     Mieru.Gen.PatternGen.lowEntropySnapshot =
-      [(1, "lowEntropyMode, lowEntropyRotation, sendLowEntropy := s.lowEntropySendConfig()")] := by decide
+      [(1, "lowEntropyMode, lowEntropyRotation, sendLowEntropy := s.lowEntropySendConfig()")] := ⟨rfl, rfl, rfl⟩
 
 /-- which rewrite the calls of a `newNonceTo` switch case amount to -/
 def actionOfCalls (calls : List String) : NonceAction :=
@@ -535,7 +535,7 @@ theorem newNonceStep_eq_gen (pat : Option (Int × Bool)) (stateless applied : Bo
 theorem newNonceTo_preamble :
     Mieru.Gen.PatternGen.newNonceToPreamble =
       ["if len(nonce) < c.NonceSize() { return errDestinationTooSmall }", "nonce = nonce[:c.NonceSize()]",
-       "if _, err := crand.Read(nonce); err != nil { return err }"] := by decide
+       "if _, err := crand.Read(nonce); err != nil { return err }"] := rfl
 
 /-- the guard and the piece-length arithmetic of `writeWithPossibleFragment` (pkg/protocol/underlay_stream.go) -/
 theorem fragment_eq_gen (tpNil fragNil enable : Bool) (total remaining sq draw : Nat) :
@@ -564,7 +564,7 @@ theorem fragment_loop_shape :
     Mieru.Gen.PatternGen.fragmentLoopShape =
       ["remaining := dataToSend", "len(remaining) > 0", "if _, err := t.conn.Write(remaining[:lenToSend]); err != nil",
        "if t.trafficPattern.GetTcpFragment().GetMaxSleepMs() > 0", "remaining = remaining[lenToSend:]", "return nil"] ∧
-    Mieru.Gen.PatternGen.fragmentDisabledCalls = ["t.conn.Write", "fmt.Errorf"] := by decide
+    Mieru.Gen.PatternGen.fragmentDisabledCalls = ["t.conn.Write", "fmt.Errorf"] := ⟨rfl, rfl⟩
 
 end Mieru.C16
 
@@ -669,7 +669,7 @@ theorem validate_shape :
        "  if _, ok := appctlpb.LowEntropyMode_name[int32(lowEntropy.GetMode())]; !ok", "    return error",
        "if lowEntropy.MaskRotation != nil",
        "  if _, ok := appctlpb.LowEntropyMaskRotation_name[int32(lowEntropy.GetMaskRotation())]; !ok", "    return error",
-       "return nil"] := by decide
+       "return nil"] := ⟨rfl, rfl, rfl⟩
 
 /-! ### the implicit generator (apis/trafficpattern/config.go `generate*`): every `rng.FixedInt` call site -/
 
@@ -702,7 +702,7 @@ theorem fixedInt_call_sites :
     Mieru.Gen.PatternGen.generateImplicitShape =
       ["seed := int(c.original.GetSeed())", "if c.original.Seed == nil { seed = rng.FixedIntVH(math.MaxInt32) }",
        "unlockAll := c.original.GetUnlockAll()", "c.generateTCPFragment(seed, unlockAll)", "c.generateNoncePattern(seed, unlockAll)",
-       "c.generatePaddingPattern(seed, unlockAll)", "c.generateLowEntropyPattern(seed, unlockAll)"] := by decide
+       "c.generatePaddingPattern(seed, unlockAll)", "c.generateLowEntropyPattern(seed, unlockAll)"] := ⟨rfl, by decide, rfl, rfl⟩
 
 /-- what surrounds the draws (post-processing, the clamp, the floor, the rotation mapping), statement by
     statement: the `+ 1`, `+ 6`, `== 1`, `- 128` / `<= 0 ⇒ 0`, `minLen + …`, the clamp of the implicit minLen to an
